@@ -329,6 +329,11 @@ class Impl:
                 self.next_raw[op["name"]] = listing_of(op)
                 kw = {"nowrap": op["nowrap"]}
                 kw["perdisk" if op["name"] == "disk" else "pernic"] = not op.get("total", False)
+                # the documented defaults are perdisk/pernic=False, nowrap=True: every other call leaves out the
+                # arguments that equal them, so that a changed default shows (found by tools/automut.py)
+                self.ncalls = getattr(self, "ncalls", 0) + 1
+                if self.ncalls % 2 == 0:
+                    kw = {k: v for k, v in kw.items() if v != (k == "nowrap")}
                 r = self.fn[op["name"]](**kw)
                 if r is None:
                     return {"kind": "nil"}
@@ -958,11 +963,15 @@ def check_finding(ctx, fnd):
         seen = []
         for v, perdisk in fnd["witness"]["calls"]:
             write(v)
-            r = ps.disk_io_counters(perdisk=perdisk, nowrap=True)
-            seen.append(r["sda1"].read_count if perdisk else None)
+            try:
+                r = ps.disk_io_counters(perdisk=perdisk, nowrap=True)
+                seen.append(r["sda1"].read_count if perdisk else None)
+            except Exception:  # noqa: BLE001 - an exception / a missing listed device is an observable, not a harness crash
+                if perdisk:
+                    seen.append(-1)
         ps.disk_io_counters.cache_clear()
         per = [x for x in seen if x is not None]
-        return "reproduces" if any(b < a for a, b in zip(per, per[1:])) else "gone"
+        return "reproduces" if any(b < a for a, b in zip(per, per[1:])) or -1 in per else "gone"
     finally:
         ps.PROCFS_PATH, plat.is_storage_device = old_path, old_isd
         shutil.rmtree(tmp, ignore_errors=True)
